@@ -1331,11 +1331,11 @@ def run(ctx: Ctx):
                 ctx.count("decimal sampling rate")
                 one_text(ctx, drv, wd, fmt, text, rate, case, m)
         # the abstract RINEX 3 file of the file-level theorem (Spec/Rinex3ObsFile.lean): render, wf, theorem instance, expected
-        for i in range(ctx.budget(120, 1500)):
+        for i in range(ctx.budget(120, 1000)):
             m = gen_file3_model(rng, ctx.thorough)
             one_file3(ctx, drv, wd, m, pick_rate(rng, m), i)
         # the abstract RINEX 2 file (Spec/Rinex2ObsFile.lean): render2, wf, instance, expected2
-        for i in range(ctx.budget(100, 1200)):
+        for i in range(ctx.budget(100, 800)):
             m = gen_file2_model(rng, ctx.thorough)
             one_file2(ctx, drv, wd, m, pick_rate(rng, m), i)
     finally:
